@@ -59,6 +59,12 @@ def faults_for(length):
         out.append({"mode": "kill-write", "prefix": p, "readonly_dir": True})
         out.append({"mode": "raise-write", "prefix": p, "error": "nospace", "readonly_dir": True})
     out.append({"mode": "short-oswrite", "prefix": max(1, length // 2), "readonly_dir": True})
+    # the data reach the disk only when the file is closed, and the error strikes there
+    for p in prefixes:
+        out.append({"mode": "raise-close", "prefix": p, "error": "nospace"})
+    # the same faults after an earlier successful edit in the same process
+    out.append({"mode": "raise-write", "prefix": prefixes[1], "error": "nospace", "warmup": True})
+    out.append({"mode": "raise", "k": 1, "error": "perm", "warmup": True})
     # a leftover '<metafile>.part' (regular file, link to the metafile, link to another file)
     for kind in ("file", "link-to-metafile", "link-to-other"):
         out.append({"mode": "none", "stale_part": kind})
@@ -92,6 +98,7 @@ def run_case(run, drv, case_seed, pool):
         jobs = []
         specs = faults_for(len(new))
         specs += [{"mode": "none", "req": r} for r in UNENCODABLE]
+        specs += [{"mode": "none", "req": r, "warmup": True} for r in UNENCODABLE[:3]]
         for i, f in enumerate(specs):
             path = os.path.join(box, f"f{i}.torrent")
             if link in ("plain", "bare-relative"):
@@ -148,7 +155,7 @@ def run_case(run, drv, case_seed, pool):
                     open(path + ".other", "rb").read() != b"an unrelated file that must survive":
                 run.fail("impl-vs-spec", fc, {"why": "the edit wrote through a leftover '.part' link into "
                                                      "another file"})
-            if f.get("readonly_dir") or f.get("stale_part"):
+            if f.get("readonly_dir") or f.get("stale_part") or f.get("warmup") or f.get("mode") == "raise-close":
                 pass        # the standing condition is outside the operation model (Effects.lean)
             elif f.get("mode") == "kill":
                 c = {0: 1, 1: 3}.get(f["k"], 4)
